@@ -177,6 +177,17 @@ m('c07-delete-ignored', 'C07', 'chain.py', "            task.force(delete_data=d
 m('c07-last-named-only', 'C07', 'chain.py', "            forced_tasks |= self.dependent_tasks(task, include_self=True)", "            forced_tasks = self.dependent_tasks(task, include_self=True)")
 m('c07-continues-delete-raises', 'C07', 'data.py', "        shutil.rmtree(str(self.tmp_path), ignore_errors=True)", "        shutil.rmtree(str(self.tmp_path))")
 
+# ---- C18 -----------------------------------------------------------------------------------------------
+m('c18-log-append', 'C18', 'data.py', "        return logging.FileHandler(self.log_path, mode='w')", "        return logging.FileHandler(self.log_path, mode='a')")
+m('c18-run-info-before-run', 'C18', 'task.py', "                self._init_run_info()\n", "                self._init_run_info()\n                if self._data and self._data.is_logging:\n                    self._data.save_run_info(dict(self._run_info, log=list(self._run_info['log'])))\n")
+m('c18-run-info-not-reset', 'C18', 'task.py', "            'log': [],\n        }", "            'log': getattr(self, '_run_info', {}).get('log', []),\n        }")
+m('c18-handler-never-removed', 'C18', 'task.py', "                    self.logger.removeHandler(data_log_handler)\n                    if data_log_handler is not None:\n                        data_log_handler.close()\n", "                    pass\n")
+m('c18-handler-leak-on-failure', 'C18', 'task.py', "                try:\n                    run_result = self.run(*self._get_run_arguments())\n                    self.logger.info(f'{self} - run ended')\n                finally:\n                    # also after failed run, otherwise later runs in this process would be logged to this file too\n                    self.logger.removeHandler(data_log_handler)\n                    if data_log_handler is not None:\n                        data_log_handler.close()",
+  "                run_result = self.run(*self._get_run_arguments())\n                self.logger.info(f'{self} - run ended')\n                self.logger.removeHandler(data_log_handler)")
+m('c18-input-keys-missing', 'C18', 'task.py', "                self._run_info['input_tasks'] = self._config.input_tasks", "                self._run_info['input_tasks'] = {k: v[:8] for k, v in self._config.input_tasks.items()}")
+m('c18-params-from-default', 'C18', 'task.py', "            'parameters': {p.name: p.value_repr() for p in self.parameters.values()},", "            'parameters': {p.name: repr(p.default) for p in self.parameters.values()},")
+m('c18-run-info-skipped-on-rerun', 'C18', 'task.py', "        if self._data and self._data.is_logging:\n            self._data.save_run_info(self._run_info)", "        if self._data and self._data.is_logging and not self._data.run_info_path.exists():\n            self._data.save_run_info(self._run_info)")
+
 
 def make_scratch():
     d = Path(tempfile.mkdtemp(prefix='tcmut-'))
